@@ -613,6 +613,10 @@ def run(ctx):
     ev = evaluate(ctx, progs, want_bash=True)
     classify(ctx, progs, ev, res)
     idx, impl_cases, impl, bash, m0, mod0, m1, mod1 = ev
+    # differential part (not proof-backed): DEBUG traps, nested different handlers, trap-delivery suppression
+    from props import c16x
+    xn, xv, xst = c16x.run_scenarios(ctx, 200 if ctx.quick else 1500)
+    res["spec_violations"].extend(xv)
     # extraction cross-check
     sidx = ctx.rng.sample(range(len(m0)), min(40, len(m0)))
     ce = ctx.coq_eval("c16", [m0[i] for i in sidx])
@@ -630,7 +634,7 @@ def run(ctx):
     distinct = {json.dumps(c) for c, l in zip(m0, mod0) if parse_model(l) and parse_model(l)["exit_starts"] >= 1}
     which = "repaired (a handler's exit ends the shell)" if stats["eq_unfixed"] == 0 else "as found (a handler's exit is dropped)"
     return {
-        "evaluations": len(m0),
+        "evaluations": len(m0) + xn,
         "distinct_nontrivial": len(distinct),
         "rule": "programs over the C16 command language (markers, true/false/unknown command, exit/return, fatal and "
                 "non-fatal expansion errors, set -e/-E, trap set/replace/remove for EXIT and ERR with handlers that "
@@ -639,7 +643,13 @@ def run(ctx):
                 "nesting context x handler kind x errexit programs + %d random ones; non-trivial = the EXIT handler "
                 "actually starts in the run (per model ghost trace); distinct by (front-end, program)" % (len(hw), len(progs) - len(hw)),
         "samples": [{"frontend": c[0], "script": c[2]} for c in (impl_cases[0], impl_cases[len(hw) * 3 + 1], impl_cases[-1])],
-        "distribution": {"programs_with_node_kind": kinds, "run_stats": stats, "code_behaves_as": which},
+        "distribution": {"programs_with_node_kind": kinds, "run_stats": stats, "code_behaves_as": which,
+                         "differential_trap_scenarios": xst},
+        "notes": ["proof-backed (Coq model + theorems + correspondence): EXIT/ERR traps over the command language of "
+                  "Traps/Syntax.v, three front-ends (%d runs)" % len(m0),
+                  "differential only (oracle on the code's own output + equality with bash 5.2 on stdout and status): DEBUG "
+                  "traps next to ERR/EXIT, handlers nested through each other, trap inside handlers, compgen -F / complete -F "
+                  "(missing, failing, nested, working completion functions) before every termination path (%d runs)" % xn],
         "spec_vs_bash": {"agree": stats["bash_agree"], "differ": stats["bash_differ"],
                          "spec_violations_vetoed_because_bash_agrees": stats["spec_vetoed_by_bash"],
                          "vetoed_samples": res["vetoed"][:3]},
